@@ -413,6 +413,29 @@ def emit(b, t, rng, shared=None, rec=None, path=(), pool=None):
         s = b.importsource()
         b.cmd("seturl", s, S(t[1]))
         b.cmd("setid", s, S(t[2]))
+        # resolved state (ImportSource::setModel, what Importer::resolveImports does): not part of equality.
+        # M1 / M2: two models of equal content shared by all import sources of the case (kept alive in their slots: the
+        # import source only holds a weak pointer), so that both sides of a comparison often point at the SAME model object
+        # while their urls / ids differ; or a model of its own; or unresolved.
+        lib = b.__dict__.setdefault("libmodels", [])
+        r = rng.random()
+        if r < 0.35:
+            count("import_unresolved")
+        else:
+            if r < 0.9:
+                which = 0 if r < 0.7 else 1
+                while len(lib) <= which:
+                    lib.append(b.model("lib"))
+                m = lib[which]
+                count("import_resolved_shared_model_M%d" % (which + 1))
+            else:
+                m = b.model("lib")
+                count("import_resolved_own_model")
+            if rng.random() < 0.5:
+                b.cmd("setmodel", s, m)
+                b.cmd("seturl", s, S(t[1]))      # the url edited (re-set) after resolution
+            else:
+                b.cmd("setmodel", s, m)
         return note(s)
     if k == 'U':
         s = b.units(t[1])
